@@ -24,7 +24,7 @@ for (bits, cases) in ((32, [(3, 17), (0, 16), (7, 9), (1, 24)]), (64, [(1, 11), 
             tiers=("quick", "thorough") if (i == 0 and bits == 32) else ("thorough",), timeout_q=280, timeout_t=1800))
 OBLIGATIONS.append(ob("crc_generic_memory_safety", "harness_safety",
     "lzma_crc32_generic and lzma_crc64_generic never read outside buf[0..n) and terminate, for every length <= NMAX and every alignment 0..7 (prologue/size arithmetic cannot wrap)",
-    "length <= NMAX (quick 20, thorough 72), alignment 0..7", qdefs=["NMAX=20"], tdefs=["NMAX=72"], qunwind=22, tunwind=74, timeout_q=600))
+    "length <= NMAX (quick 20, thorough 24), alignment 0..7", qdefs=["NMAX=20"], tdefs=["NMAX=24"], qunwind=22, tunwind=26, timeout_q=600, timeout_t=3000, mem_gb=16))
 for o in OBLIGATIONS:
     o.functions = ["lzma_crc32_generic", "lzma_crc32", "lzma_crc64_generic", "lzma_crc64", "lzma_crc32_table", "lzma_crc64_table"]
     o.outside = "CLMUL / ARM64 / LoongArch / x86 assembly CRC variants (intrinsics and asm are outside CBMC); full-width generic==bitwise as ONE query (measured: no verdict) - replaced by tables+bytestep+linearity+structure and the stated composition argument"
